@@ -63,6 +63,45 @@ func liveProfile() Profile {
 	return p
 }
 
+func rewardsProfile() Profile {
+	p := baseProfile()
+	p.Name = "rewards"
+	p.Weights = map[string]int{KDelegate: 22, KUndelegate: 10, KRedelegate: 12, KClaim: 12, KBlock: 26, KUpdate: 4, KClaimAll: 2, KSlashHook: 2, KSlash: 2, KNatDel: 2, KJail: 1, KUnjail: 1}
+	p.TakeRates = []string{"0"}
+	p.Delays = []int64{0, 0, 0, sec}
+	p.ChRates = []string{"1", "1", "0.5", "0.99"}
+	p.Weights_ = []string{"0.01", "0.5", "1", "5"}
+	p.SettleBeforeValueChange = true
+	p.NAssetsMin = 1
+	p.InvalidPct = 3
+	return p
+}
+
+func init() {
+	register(&Spec{
+		ID:      "C13",
+		Profile: func(tier string) Profile { return tierSteps(rewardsProfile(), tier) },
+		Oracles: func() []Oracle { return []Oracle{NewOracleC13()} },
+		NonTrivial: func(x *Exec) bool {
+			return x.Has("c13:payout") && x.Has("c13:accrual-shared-by>=2-positions") && (x.Has("c13:stake-op-settled-pending-rewards") || x.Has("c13:new-position-by-redelegate-while-rewards-pending"))
+		},
+		Rule: "stateful rapid histories, 'rewards' profile (take rate 0; claim_all injected before every slash so that no value-changing event separates accrual and claim; all arrival paths of new stake; governance weight changes and decay); oracle = exact-rational reference: what x/distribution accrues to the module per validator at each block start (measured by withdrawing on a throw-away branch) is credited to the positions existing at that moment (weight x share-of-asset normalised over started assets, then pro rata by delegator shares); every explicit or implicit claim must pay the accumulated entitlement of the settled positions within the derived tolerance, nothing otherwise; non-trivial = a payout in a history where an accrual was shared by >=2 positions of one validator and stake arrived on a validator (by delegation or redelegation) while rewards were pending for it in x/distribution; distinct = distinct concrete op list",
+	})
+	register(&Spec{
+		ID: "C12",
+		Profile: func(tier string) Profile {
+			p := rewardsProfile()
+			p.TakeRates = []string{"0", "0", "0.001", "0.5"}
+			p.Weights[KBlock] = 30
+			p.MaxSteps = 30
+			return tierSteps(p, tier)
+		},
+		Oracles:    func() []Oracle { return []Oracle{&OracleC12{}} },
+		NonTrivial: func(x *Exec) bool { return x.Has("c12:unclaimed-on>=2-validators") },
+		Rule:       "stateful rapid histories, 'rewards' profile with take rates (claim_all injected before every slash and before every block, i.e. before every value-changing event: the trigger of the listed finding F-C12a is excluded by construction, injected ops are counted); after every step every delegation claims on one discarded branch in a rotating/reversed order and every claim must be payable by the rewards pool (shortfalls within the rounding allowance are the listed finding F-C12b); non-trivial = the sweep paid rewards to positions on >=2 validators; distinct = distinct concrete op list",
+	})
+}
+
 func takerateProfile() Profile {
 	p := baseProfile()
 	p.Name = "takerate"
